@@ -537,7 +537,7 @@ def m_map_insert(ex, a, m):
     mp = a[0].cell.v; k = conc(ex, as_str(a[1]), 'map key')
     old = mp.d.get(k); mp.d[k] = Cell(a[2])
     return some(old.v) if old is not None else none()
-@model_rx(r'^(BTreeMap|HashMap)::get$')
+@model_rx(r'^(BTreeMap|HashMap|serde_json::Map|Map)::get$')
 def m_map_get(ex, a, m):
     mp = deref_all(a[0]); k = conc(ex, as_str(a[1]), 'map key')
     c = mp.d.get(k)
@@ -547,7 +547,7 @@ def m_map_remove(ex, a, m):
     mp = a[0].cell.v; k = conc(ex, as_str(a[1]), 'map key')
     c = mp.d.pop(k, None)
     return some(c.v) if c is not None else none()
-@model_rx(r'^BTreeMap::(values|keys)$')
+@model_rx(r'^(?:BTreeMap|serde_json::Map|Map)::(values|keys)$')
 def m_map_values(ex, a, m):
     mp = deref_all(a[0])
     if m.group(1) == 'values': return IterV(iter([Ptr(mp.d[k], 'ref') for k in mp.keys()]))
@@ -1348,12 +1348,12 @@ def _mapof(v):
     t = deref_all(v)
     if not isinstance(t, MapV): raise Unsupported(f'not a map: {t!r}')
     return t
-@model_rx(r'^(BTreeMap|HashMap)::(iter|iter_mut)$')
+@model_rx(r'^(BTreeMap|HashMap|serde_json::Map|Map)::(iter|iter_mut)$')
 def m_map_iter(ex, a, m):
     mp = _mapof(a[0])
     if not mp.ordered and len(mp.d) > 1: raise Unsupported('iteration order of a HashMap is unspecified')
     return IterV(iter([Agg('tuple', None, None, [Cell(Ptr(Cell(rstr(k)), 'ref')), Cell(Ptr(mp.d[k], 'ref'))]) for k in mp.keys()]))
-@model_rx(r'^(BTreeMap|HashMap)::(contains_key|get_mut|clear|len|is_empty|values_mut|into_values|into_keys|first_key_value|last_key_value|pop_first|pop_last|append|retain)$')
+@model_rx(r'^(BTreeMap|HashMap|serde_json::Map|Map)::(contains_key|get_mut|clear|len|is_empty|values_mut|into_values|into_keys|first_key_value|last_key_value|pop_first|pop_last|append|retain)$')
 def m_map_more(ex, a, m):
     op = m.group(2); mp = _mapof(a[0])
     if op == 'contains_key': return Bool(conc(ex, as_str(a[1]), 'map key') in mp.d)
@@ -1434,7 +1434,7 @@ def m_vec_more(ex, a, m):
         items[:] = [c for c in items if pybool(ex, ex.call_value(a[1], [Ptr(c, 'ref')]))]; return UNIT
     if op == 'drain':
         r = a[1]
-        if isinstance(r, Agg) and r.ty in ('RangeFull',) or (isinstance(r, Agg) and not r.fields):
+        if (isinstance(r, Agg) and (r.ty in ('RangeFull',) or not r.fields)) or isinstance(r, FnItem) or (isinstance(r, Agg) and r.kind == 'struct' and r.ty is None):
             out = [c.v for c in items]; del items[:]; return IterV(iter(out))
         raise Unsupported('Vec::drain with a bounded range')
     if op == 'split_off':
@@ -1606,12 +1606,23 @@ def m_mutex(ex, a, m):
 def m_guard_deref(ex, a, m): return a[0].cell.v if isinstance(a[0].cell.v, Ptr) else a[0]
 @model_rx(r'^<(.+) as ToJmespath>::to_jmespath$')
 def m_to_jmespath(ex, a, m):
-    """generic ToJmespath on engine values: an Rc<Variable> converts to itself, a Variable is wrapped (the serde path of arbitrary T is C14's subject)"""
+    """ToJmespath on a value whose impl rustc resolved through a reference / generic parameter: dispatch on the engine value to the crate impl
+    that applies (a specialised one when the crate was built with `specialized`, else the generic serde path)"""
     v = a[0]
-    if isinstance(v, Ptr) and v.kind == 'rc': return ok(v)
-    if isinstance(v, Ptr) and isinstance(v.cell.v, Ptr) and v.cell.v.kind == 'rc': return ok(v.cell.v)
-    if isinstance(v, Agg) and v.ty == 'Variable': return ok(Ptr(Cell(v), 'rc'))
-    raise Unsupported('ToJmespath of a non-Variable value')
+    inner = v
+    isref = isinstance(v, Ptr) and v.kind != 'rc'
+    while isinstance(inner, Ptr) and inner.kind != 'rc': inner = inner.cell.v
+    tyname = None
+    if isinstance(inner, Agg) and inner.ty in ('Value', 'Variable'): tyname = inner.ty
+    elif isinstance(inner, Ptr) and inner.kind == 'rc': tyname = 'Rc<Variable>'
+    elif isinstance(inner, StrV): tyname = 'str' if isref else 'std::string::String'
+    if tyname:
+        want = ('&' + tyname) if isref else tyname
+        cands = [f for n, f in ex.prog.fns.items() if n.endswith('>::to_jmespath') and f.params and f.locals[f.params[0]].replace('serde_json::', '').replace('std::rc::', '').replace('variable::', '') == want]
+        if len(cands) == 1: return ex.run_fn(cands[0], [v])
+    g = ex.prog.by_key.get(('ToJmespath', 'T', 'to_jmespath'))
+    if g is None: raise Unsupported('ToJmespath: no generic impl found')
+    return ex.run_fn(g, [v])
 @model_rx(r'^<\w+ as Into<std::string::String>>::into$|^<std::string::String as From<.*>>::from$')
 def m_generic_into_string(ex, a, m): return StrV(as_str(a[0]).chars)
 
@@ -1893,3 +1904,11 @@ def m_panic_call(ex, a, m):
             try: msg = render_arguments(ex, v)
             except Exception: msg = ''
     raise Panic(f'{m.group(1).split("::")[-1]}: {msg}'[:200])
+
+@model_override(r"^<(&?(?:'\\w+ )?(?:serde_json::)?Value) as (?:std::convert::)?TryInto<(?:variable::)?Variable>>::try_into$|^<(?:variable::)?Variable as (?:std::convert::)?TryFrom<(&?(?:'\\w+ )?(?:serde_json::)?Value)>>::try_from$")
+def m_value_try_into(ex, a, m):
+    src = (m.group(1) or m.group(2)).replace('serde_json::', '')
+    want = '&Value' if src.startswith('&') else 'Value'
+    cands = [f for n, f in ex.prog.fns.items() if n.endswith('>::try_from') and f.params and f.locals[f.params[0]].replace('serde_json::', '') == want]
+    if len(cands) != 1: return NotImplemented
+    return ex.run_fn(cands[0], [a[0]])
